@@ -117,6 +117,15 @@ CHECKS = {
          "Each transition replays the history on a fresh real frame (traces_validated_against_impl == transitions). "
          "Column subsets that drop the active but keep another geometry column are not generated; pack raising is exempt.",
          "DESIGN.md section 3/C20"),
+ "C05": ("exploration", "E1",
+         "bounded exhaustive enumeration of left/right row sequences and configurations against a result table built from the exact C02 oracle",
+         "Every left row sequence (0..3 rows over a pool with duplicates, a missing point, a point matching many and one "
+         "matching nothing) x every right row sequence (0..2 rows, 6 geometry kinds) x how in {inner,left,right}, index "
+         "styles (default, non-unique, named, MultiIndex; string labels on the right), clashing column names and suffix "
+         "pairs rotated over all sequences; the complete expected table (labels, columns, geometry, missing values) is "
+         "built from the exact point classification and compared as a multiset of rows.",
+         "Row order and dtypes are pandas merge semantics and not compared; pool points are off polygon rings.",
+         "DESIGN.md section 3/C05"),
 }
 
 NOT_YET = {}
